@@ -235,6 +235,10 @@ def c03(res: CheckResult) -> None:
     rng.shuffle(late)
     call_unit(res, "public methods added by a class decorator placed between two invariant decorators",
               late[:400 if res.tier == "quick" else 4000], ic, require_outcomes=["ret", "Violation"])
+    via_alias = list(F.with_defs_via_alias(list(F.fam_inv(res.tier, rng)) + list(F.fam_inv_sub(res.tier, rng))))
+    rng.shuffle(via_alias)
+    call_unit(res, "the constructor / __setattr__ written under an ordinary name and bound to the special name in the class body",
+              via_alias[:500 if res.tier == "quick" else 5000], ic, require_outcomes=["ret", "Violation"])
     call_unit(res, "the constructor bound under a second, public name (reset = __init__) is a public method",
               list(F.fam_ctor_alias(res.tier, rng)), ic, require_outcomes=["ret", "Violation"])
     call_unit(res, "subclass constructors calling the base constructor; members added by the subclass",
